@@ -83,9 +83,19 @@ pub struct IdentityAnswer {
     pub chall_signature: Vec<u8>,
 }
 impl IdentityAnswer {
+    ///
+    /// what is signed to prove an identity: never the bytes sent by the remote peer as they are,
+    /// the signature would otherwise be valid for whatever those bytes are the digest of (a row, an invite)
+    ///
+    pub fn proof_message(challenge: &[u8]) -> Vec<u8> {
+        let mut hasher = blake3::Hasher::new_derive_key("discret identity proof");
+        hasher.update(challenge);
+        hasher.finalize().as_bytes().to_vec()
+    }
+
     pub fn verify(&self, challenge: &[u8]) -> Result<(), security::Error> {
         let pub_key = security::import_verifying_key(&self.peer.verifying_key)?;
-        pub_key.verify(challenge, &self.chall_signature)?;
+        pub_key.verify(&Self::proof_message(challenge), &self.chall_signature)?;
         Ok(())
     }
 }
